@@ -150,6 +150,25 @@ def step (regs : Regs) (line : String) : Regs × String :=
       | some s => (regs.put d (.res s), "ok " ++ showSS s)
       | none => (regs, "err")
     | _, _ => (regs, "bad-reg")
+  | ["concatd", d, rs, fills] => match d.toNat?, (rs.splitOn ",").mapM (getSS regs) with
+    | some d, some ss =>
+      -- fills: `name=v:v,name=v` (value per component)
+      let tbl : List (String × List Rat) := (splitOr "," fills).filterMap fun (kv : String) => match kv.splitOn "=" with
+        | [k, v] => (parseRats? ":" v).map (k, ·)
+        | _ => none
+      let fill (f : String) : List Rat := ((tbl.find? (·.1 = f)).map (·.2)).getD []
+      match concatenateD fill ss with
+      | some s => (regs.put d (.res s), "ok " ++ showSS s)
+      | none => (regs, "err")
+    | _, _ => (regs, "bad-reg")
+  | ["dataorder", r, by_, rev] => match getSS regs r, parseKey? by_ with
+    | some s, some k => (regs, "ok " ++ listOr "," toString (dataOrder s.rows k (rev = "1")))
+    | _, _ => (regs, "bad-op")
+  | ["samples", r, n, by_] => match getSS regs r, parseOptInt? n, parseKey? by_ with
+    | some s, some n, some k => (regs, match s.samplesView n k with
+      | some rows => "ok " ++ listOr "|" (listOr "," showRat) rows
+      | none => "err")
+    | _, _, _ => (regs, "bad-op")
   | ["first", r] => match getSS regs r with
     | some s => (regs, match s.first with | some row => "ok " ++ showRow row | none => "err")
     | none => (regs, "bad-reg")
